@@ -405,8 +405,10 @@ class Interval(NominalValueMixin):
         otherType = other.__class__.__name__
         if otherType in INTEGERS:
             if other < 0:
-                # x**(-k) = 1 / x**k; the reciprocal raises ZeroDivisionError when 0 is in x
-                return 1 / self ** (-other)
+                # x**(-k) = (1 / x)**k; the reciprocal raises ZeroDivisionError when 0 is in x.
+                # (Not 1 / x**k: x**k can underflow to 0 for a tiny non-zero endpoint, and the
+                # reciprocal then raised ZeroDivisionError although 0 is not in x.)
+                return (1 / self) ** (-other)
             a, b = numpy.asarray(self.lo**other), numpy.asarray(
                 self.hi**other
             )  # a2,b2 = a**2, b**2
